@@ -477,6 +477,30 @@ Proof.
   intros i j Hi Hj. do 5 (destruct i as [|i]; [do 5 (destruct j as [|j]; [vm_compute; discriminate|]); lia|]). lia.
 Qed.
 
+(* the statements as exported by Properties/C08.v *)
+Theorem weiQ_reduce_all n k G M : (0 < k)%Z -> scaled_to n k G M ->
+  (betweenness_weiQ n G = betweenness_wei n M /\ edge_betweenness_weiQ n G = edge_betweenness_wei n M) /\
+  (forall s t, spathsQ n G s t = spaths n M s t) /\
+  (forall v, BC_specQ n G v == BC_spec n M v) /\ (forall x y, EBC_specQ n G x y == EBC_spec n M x y).
+Proof. intros Hk H. exact (conj (weiQ_reduce n k G M Hk H) (specQ_reduce n k G M Hk H)). Qed.
+Theorem bc_weiQ_correct_all n G : nonneg_lenQ n G ->
+  (exists BC, betweenness_weiQ n G = Some BC /\ forall v, (v < n)%nat -> BC v == BC_specQ n G v) /\
+  (exists EBC BC, edge_betweenness_weiQ n G = Some (EBC, BC) /\
+    (forall v, (v < n)%nat -> BC v == BC_specQ n G v) /\
+    (forall x y, (x < n)%nat -> (y < n)%nat -> EBC x y == EBC_specQ n G x y)).
+Proof. intros H. exact (conj (bc_weiQ_correct n G H) (ebc_weiQ_correct n G H)). Qed.
+Theorem weiQ_scale_all n c G : 0 < c -> nonneg_lenQ n G ->
+  ((forall v, BC_specQ n (scaleQ c G) v == BC_specQ n G v) /\
+   (forall x y, EBC_specQ n (scaleQ c G) x y == EBC_specQ n G x y)) /\
+  (exists BC' BC, betweenness_weiQ n (scaleQ c G) = Some BC' /\ betweenness_weiQ n G = Some BC /\
+     forall v, (v < n)%nat -> BC' v == BC v) /\
+  (exists E' B' E B, edge_betweenness_weiQ n (scaleQ c G) = Some (E', B') /\ edge_betweenness_weiQ n G = Some (E, B) /\
+     (forall v, (v < n)%nat -> B' v == B v) /\ (forall x y, (x < n)%nat -> (y < n)%nat -> E' x y == E x y)).
+Proof.
+  intros Hc H. destruct (weiQ_scale_invariant n c G Hc H) as [A B].
+  exact (conj (specQ_scale_invariant n c G Hc H) (conj A B)).
+Qed.
+
 Print Assumptions weiQ_reduce.
 Print Assumptions bc_weiQ_correct.
 Print Assumptions ebc_weiQ_correct.
